@@ -87,6 +87,15 @@ var extractTypes = []interface{}{
 	zoo.Node{}, zoo.FNode{}, zoo.Ping{}, zoo.Pong{}, zoo.Wide{}, zoo.Five{}, selfSlice{}, mutA{}, mutB{}, deepPtr{}, holdIface{},
 	recCustom{}, recCustomPair{}, nestEmpty{}, embPtr{}, customList{}, holdCustomList{},
 	[]zoo.Small{}, []*zoo.Node{}, [][]zoo.Item{}, map[string]*zoo.Ping{}, map[string][]zoo.Custom{}, zoo.Nodes{},
+	keyBoard{}, map[keyCell]*keyStone{}, map[keyCell][]keyStone{},
+}
+
+// struct types that are reachable through the KEY position of a map only
+type keyCell struct{ X, Y int32 }
+type keyStone struct{ W int32 }
+type keyBoard struct {
+	M map[keyCell]*keyStone
+	N map[keyCell]int32
 }
 
 // witnesses of a type: from the zero value to fully populated.
